@@ -92,7 +92,7 @@ class M(Model):
                         f"reward={float(ts2.reward)!r} documented={self.penalty!r}"))
         for f in self.PROBLEM_FIELDS:
             x, y = np.asarray(getattr(s, f)), np.asarray(getattr(s2, f))
-            if x.shape != y.shape or x.dtype != y.dtype or x.tobytes() != y.tobytes():
+            if x.shape != y.shape or not np.array_equal(x, y):  # "untouched" = same values (dtype is C01's business)
                 out.append((f"illegal move changed state field {f}", f"{short(x)} -> {short(y)}"))
         return out
 
@@ -120,8 +120,7 @@ class M(Model):
                         f"trajectory[:{n}]={h.tolist()} visited={np.flatnonzero(vm).tolist()}"))
         if int(vm.sum()) != n:
             out.append(("num_visited != number of visited cities", f"num_visited={n} visited={int(vm.sum())}"))
-        if (traj[n:] != -1).any():
-            out.append(("unfilled trajectory entries are not -1", f"trajectory[{n}:]={traj[n:].tolist()}"))
+        # (the padding of the unfilled trajectory entries is not a hard constraint of the problem: not asserted)
         return out
 
     def complete(self, s, ts):
@@ -184,10 +183,9 @@ class M(Model):
             out.append(("coordinates not finite floats", short(xy)))
         elif (xy < 0).any() or (xy > 1).any():
             out.append(("coordinates outside the unit square", f"min={xy.min()} max={xy.max()}"))
-        if int(s0.position) != -1:
-            out.append(("initial position is not -1 (no city chosen yet)", str(int(s0.position))))
+        # (how "no city chosen yet" is encoded in `position` is not documented: not asserted; dtypes are C01's)
         vm = np.asarray(s0.visited_mask)
-        if vm.shape != (N,) or vm.dtype != np.bool_ or vm.any():
+        if vm.shape != (N,) or vm.astype(bool).any():
             out.append(("initial visited_mask is not all False", short(vm)))
         tr = np.asarray(s0.trajectory)
         if tr.shape != (N,) or (tr != -1).any():
